@@ -60,7 +60,13 @@ LocalPos(Z, L) ==
             \o (IF \E e \in nearEv : Lt(Pt(Z.trans[NT(Z)]), e.at) THEN "/and-rule-transition" ELSE "")
      ELSE IF Lt(hi, Pt(Z.trans[1])) THEN "before-first"
      ELSE IF Lt(Pt(Z.trans[NT(Z)]), lo) THEN
-            (IF ~HasFooter(Z) THEN "after-last" ELSE "after-last-footer/" \o footerPos)
+            (IF ~HasFooter(Z) THEN "after-last"
+             \* a rule transition lies between the end of the table and the reading, which is less than 26 h (the bound RFC 8536
+             \* recommends for offsets, and the reach of a table lookup) after the last table transition: one label whatever the rule
+             ELSE IF F.kind = "rule" /\ Le(L, Shift(Pt(Z.trans[NT(Z)]), 93600))
+                     /\ \E e \in RuleEvents(F, YearOf(L)) : Lt(Pt(Z.trans[NT(Z)]), e.at) /\ Le(e.at, Shift(hi, 1))
+                  THEN "after-last-footer/table-end-within-26h"
+             ELSE "after-last-footer/" \o footerPos)
      ELSE IF Idx(Z, hi) = 1 THEN "between/first-interval"
      ELSE "between"
 LocalCls(Z, L, ns) ==
